@@ -20,12 +20,12 @@ def model(*keys):
 
 # ---------------------------------------------------------------- helpers
 def scalar(ctx, v):
-    if isinstance(v, tuple):
-        return v
-    if isinstance(v, Ref):
-        t = ctx.interp.read(ctx.state, v.root, v.path)
-        if isinstance(t, tuple):
-            return t
+    for _ in range(4):
+        if isinstance(v, tuple):
+            return v
+        if not isinstance(v, Ref):
+            return None
+        v = ctx.interp.read(ctx.state, v.root, v.path)
     return None
 
 
@@ -156,6 +156,30 @@ def _(ctx):
     a = scalar(ctx, ctx.args[0])
     b = scalar(ctx, ctx.args[1])
     return Enum(ORDERING, ((('tcmp', 'lt', a, b), 0, ()), (('tcmp', 'eq', a, b), 1, ()), (('tcmp', 'gt', a, b), 2, ())))
+
+
+def _ordering_is(name, tags):
+    def f(ctx):
+        v = ctx.args[0]
+        if isinstance(v, Ref):
+            v = ctx.interp.read(ctx.state, v.root, v.path)
+        if not (isinstance(v, Enum) and v.path == ORDERING):
+            return NotImplemented
+        c = FALSE
+        for g, tag, _ in v.alts:
+            if tag in tags:
+                c = mk_or(c, g)
+        return c
+    MODELS['core::<std::cmp::Ordering>::' + name] = f
+    MODELS['<std::cmp::Ordering>::' + name] = f
+
+
+_ordering_is('is_lt', (0,))
+_ordering_is('is_le', (0, 1))
+_ordering_is('is_eq', (1,))
+_ordering_is('is_ne', (0, 2))
+_ordering_is('is_gt', (2,))
+_ordering_is('is_ge', (1, 2))
 
 
 def _float_binop(op):
@@ -1232,6 +1256,12 @@ def _(ctx):
     return stream_len(ctx.interp, ctx.state, s)
 
 
+@model('std::iter::ExactSizeIterator::len')
+def _(ctx):
+    s = _stream_arg(ctx, ctx.args[0])
+    return stream_len(ctx.interp, ctx.state, s)
+
+
 @model('std::iter::Iterator::last')
 def _(ctx):
     it = ctx.interp
@@ -1322,6 +1352,22 @@ def _(ctx):
     it.events.append({'kind': 'arbitrary', 'ty': ty_str(self_ty), 'name': name, 'payload': payload,
                       'fn': ctx.frame.f['path'] if ctx.frame else None, 'line': ctx.line})
     return Enum(RESULT, ((okc, 0, (payload,)), (mk_not(okc), 1, (Opaque(('arb_err', name)),))))
+
+
+def _unstructured_query(name, boolean):
+    def f(ctx):
+        it = ctx.interp
+        u = ctx.args[0]
+        cur = it.read(ctx.state, u.root, u.path) if isinstance(u, Ref) else u
+        t = ('uf', 'arbitrary::Unstructured::' + name, it.abstract(ctx.state, cur))
+        return ('pred', 'unstructured_' + name, t[2]) if boolean else t
+    for k in ("<arbitrary::Unstructured<'a>>::" + name, '<arbitrary::Unstructured>::' + name):
+        MODELS[k] = f
+
+
+# pure queries on the byte source: uninterpreted functions of its current state
+_unstructured_query('is_empty', True)
+_unstructured_query('len', False)
 
 
 @model('<[T]>::windows')
